@@ -6,7 +6,10 @@
       contains every strict ancestor (through "is a child of") of every start
    B. the downward search (search_down): terminates on acyclic heaps; sound and duplicate-free for
       ANY bound set; complete as soon as the bound set holds the strict ancestors of the targets
-   C. hrefs_of_instances *)
+   C. hrefs_of_instances: the search is started at every top instance the upward walk has reached
+      (the members of  instances | bound  that are the top instance of the netlist holding the
+      definition they reference); the answer is exactly the valid instance paths - from ANY top
+      instance - that end in one of the instances. No hypothesis on what the instances reference. *)
 From Coq Require Import List Arith Bool Lia Relations Wellfounded.
 From SV Require Import Base.Base IR.State Proofs.Inv1a Proofs.Inv2a Hier.Paths Hier.Enum
   Proofs.HierValid Proofs.HierEnum.
@@ -263,14 +266,92 @@ Proof.
   - eapply t_trans; eassumption.
 Qed.
 
-Theorem hrefs_of_instances_spec : forall s insts x0 rest n t,
+Lemma set_of_In x l : In x (set_of l) <-> In x l.
+Proof.
+  induction l as [|y l IH]; [reflexivity|]. cbn [set_of]. destruct (memb y l) eqn:M.
+  - rewrite IH. split; [intro H; right; exact H|]. intros [<-|H]; [apply memb_In; exact M|exact H].
+  - cbn [In]. rewrite IH. reflexivity.
+Qed.
+
+Lemma set_of_NoDup l : NoDup (set_of l).
+Proof.
+  induction l as [|y l IH]; [constructor|]. cbn [set_of]. destruct (memb y l) eqn:M; [exact IH|].
+  constructor; [|exact IH]. rewrite set_of_In. apply memb_false. exact M.
+Qed.
+
+(* the starting points of the search: the top instances among the instances handed in and the
+   instances marked by the upward walk *)
+Lemma reached_tops_In s insts bound t : WFk s ->
+  (In t (reached_tops s insts bound) <-> (In t insts \/ In t bound) /\ is_root s t).
+Proof.
+  intro W. unfold reached_tops. rewrite filter_In, set_of_In, in_app_iff, is_valid_single.
+  split; intros [Hi Hv]; (split; [exact Hi|]).
+  - destruct (kind_of s t) as [[]|]; try discriminate. apply root_ok_iff. exact Hv.
+  - assert (K : kind_of s t = Some KInstance).
+    { destruct Hv as (n & Hn & _). unfold root_netlist in Hn.
+      destruct (iref s t) as [d|] eqn:E; [|discriminate]. exact (wk_iref s W t d E). }
+    rewrite K. apply root_ok_iff. exact Hv.
+Qed.
+
+Lemma reached_tops_NoDup s insts bound : NoDup (reached_tops s insts bound).
+Proof. apply NoDup_filter, set_of_NoDup. Qed.
+
+(* the head of an instance path below t is t itself or a strict descendant of t *)
+Lemma rpath_head s t x p :
+  is_rpath s t (x :: p) -> (x = t /\ p = []) \/ clos_trans id (child s) x t.
+Proof.
+  intro H. apply ext_all_rpath in H. apply ext_desc in H as [E|(y & Hy & Hyt)].
+  - left. inversion E. split; reflexivity.
+  - right. cbn in Hy. inversion Hy; subst y. exact Hyt.
+Qed.
+
+Theorem hrefs_of_instances_spec : forall s insts,
   Inv1a s -> Inv2a s -> WFk s -> acyclic s ->
-  insts = x0 :: rest -> root_netlist s x0 = Some n -> top s n = Some t ->
   exists l, hrefs_of_instances s insts = Some l /\ NoDup l /\
+            (forall p, In p l <-> ((exists t, is_path s t p) /\ ends_in insts p)).
+Proof.
+  intros s insts I1 I2 W A. unfold hrefs_of_instances.
+  destruct (bound_close s (S (length insts + next s)) insts []) as [bound|] eqn:Eb.
+  2:{ exfalso. revert Eb. apply bound_close_fuel; [exact I2|exact W|constructor|intros y []|].
+      cbn [length]. lia. }
+  set (f := fun t => search_down s insts bound (depth_fuel s) [t]).
+  assert (Hne : forall t : id, [t] <> []) by (intros t; discriminate).
+  destruct (flat_opt f (reached_tops s insts bound)) as [l|] eqn:E.
+  2:{ exfalso. revert E. apply flat_opt_some. intros t _. unfold f.
+      apply search_fuel_gen; [exact W|exact A|apply Hne|exact I|]. unfold depth_fuel. cbn. lia. }
+  exists l. split; [reflexivity|]. split.
+  - eapply flat_opt_nodup; [exact E|apply reached_tops_NoDup| |].
+    + intros t x _ Hx. exact (proj1 (search_sound s insts bound I1 _ _ _ (Hne t) Hx)).
+    + intros a b x y p _ _ Hx Hy Hpx Hpy.
+      destruct (proj2 (search_sound s insts bound I1 _ _ _ (Hne a) Hx) p Hpx) as [Ha _].
+      destruct (proj2 (search_sound s insts bound I1 _ _ _ (Hne b) Hy) p Hpy) as [Hb _].
+      apply ext_suffix in Ha as [q ->]. apply ext_suffix in Hb as [q' Hq].
+      apply app_inj_tail in Hq. apply Hq.
+  - intro p. rewrite (flat_opt_in _ _ _ E p). split.
+    + intros (t & x & Ht & Hx & Hp). apply (reached_tops_In s insts bound t W) in Ht as [_ Hr].
+      destruct (proj2 (search_sound s insts bound I1 _ _ _ (Hne t) Hx) p Hp) as [He Hi].
+      split; [|exact Hi]. exists t. split; [exact Hr|apply ext_all_rpath; exact He].
+    + intros [(t & Hr & Hp) Hi].
+      assert (Ht : In t (reached_tops s insts bound)).
+      { apply (reached_tops_In s insts bound t W). split; [|exact Hr].
+        destruct Hi as (x & Hx & Hxi). destruct p as [|y p']; [discriminate|]. cbn in Hx. inversion Hx; subst y.
+        destruct (rpath_head s t x p' Hp) as [[-> _]|Hc]; [left; exact Hxi|]. right.
+        eapply bound_close_ancestors; [exact Eb|exact Hxi|].
+        eapply clos_trans_iff; [|exact Hc]. intros a b. symmetry. apply upst_child; assumption. }
+      destruct (flat_opt_each _ _ _ E t Ht) as [x Hx]. exists t, x. split; [exact Ht|]. split; [exact Hx|].
+      eapply search_complete; [|apply (Hne t)|exact Hx|apply ext_all_rpath; exact Hp|exact Hi].
+      intros a b Ha Hab. eapply bound_close_ancestors; [exact Eb|exact Ha|].
+      eapply clos_trans_iff; [|exact Hab]. intros c d. symmetry. apply upst_child; assumption.
+Qed.
+
+(* with a netlist handed in: the instance paths below ITS top instance that end in one of the
+   instances (they are valid references when that top instance is rooted in the netlist) *)
+Theorem hrefs_of_instances_in_spec : forall s insts n t,
+  Inv1a s -> Inv2a s -> WFk s -> acyclic s -> top s n = Some t ->
+  exists l, hrefs_of_instances_in s insts n = Some l /\ NoDup l /\
             (forall p, In p l <-> (is_rpath s t p /\ ends_in insts p)).
 Proof.
-  intros s insts x0 rest n t I1 I2 W A Ei Hr Ht.
-  unfold hrefs_of_instances. subst insts. cbv beta iota. rewrite Hr, Ht. set (insts := x0 :: rest) in *.
+  intros s insts n t I1 I2 W A Ht. unfold hrefs_of_instances_in. rewrite Ht.
   destruct (bound_close s (S (length insts + next s)) insts []) as [bound|] eqn:Eb.
   2:{ exfalso. revert Eb. apply bound_close_fuel; [exact I2|exact W|constructor|intros y []|].
       cbn [length]. lia. }
@@ -287,13 +368,9 @@ Proof.
     eapply clos_trans_iff; [|exact Hxy]. intros a b. symmetry. apply upst_child; assumption.
 Qed.
 
-(* no instance handed in: nothing is returned; first instance without a reference, or whose
-   reference is outside every netlist: nothing either (the documented assumption of the code) *)
+(* no instance handed in: nothing is returned *)
 Lemma hrefs_of_instances_nil s : hrefs_of_instances s [] = Some [].
-Proof. reflexivity. Qed.
-
-Lemma hrefs_of_instances_homeless s x0 rest :
-  root_netlist s x0 = None -> hrefs_of_instances s (x0 :: rest) = Some [].
-Proof. intro H. unfold hrefs_of_instances. rewrite H. reflexivity. Qed.
+Proof. unfold hrefs_of_instances. cbn. reflexivity. Qed.
 
 Print Assumptions hrefs_of_instances_spec.
+Print Assumptions hrefs_of_instances_in_spec.
